@@ -3,7 +3,9 @@
    adapters/json_serializer.py on every run; the Spec (decision table) is Json/ResolveSpec.v.
    Quantifiers: every JSON value as document and under the tag key; every behaviour the import machinery documents
    (importer: module | ModuleNotFoundError | ValueError only for "" | TypeError only for relative names;
-    getattr: object | AttributeError;  issubclass: bool | TypeError only for non-classes). *)
+    getattr (on a module or a class): object | AttributeError;  issubclass: bool | TypeError only for non-classes).
+   Tag format (since 70c605d): "<module>.<qualified class name>"; the Spec's owner part = longest importable module prefix,
+   then classes.  SubclassJSONSerializer._resolve_enclosing_class is hand-modelled ([enclosing], Json/Resolve.v) and source-pinned. *)
 From Coq Require Import List ZArith Bool.
 From Krrood Require Import Base.Sx Json.JsonVal Json.ResolveSpec Gen.JsonResolve Json.Resolve Json.ResolveProofs.
 Import ListNotations.
@@ -51,7 +53,8 @@ Theorem C19_identifies_problem :
           (full_spec pymodule pyclass pydeser import_module getattr_ is_type issubclass_ser get_deserializer implements_from_json (tag_of d)).
 Proof. exact resolve_obj. Qed.
 
-(* never a wrongly typed object: a class receives the document only if the tag is "<m>.<n>", m imports, and n is that class *)
+(* never a wrongly typed object: a class receives the document only if the tag is "<owner part>.<n>", the owner part
+   resolves (longest importable module prefix, then through classes) to an owner o, and n is that class in o *)
 Theorem C19_never_wrongly_typed :
   forall (pymodule pyclass pydeser : Type) import_module getattr_ is_type issubclass_ser get_deserializer implements_from_json,
     importer_documented pymodule import_module -> getattr_documented pymodule pyclass getattr_ ->
@@ -59,9 +62,21 @@ Theorem C19_never_wrongly_typed :
     forall (data : jv) (c : pyclass),
       resolve pymodule pyclass pydeser import_module getattr_ is_type issubclass_ser get_deserializer implements_from_json data
         = Return (FJ_CallClass c) ->
-      exists d s m n md, data = JObj d /\ dict_get d JSON_TYPE_NAME = Some (JStr s) /\ s = m ++ 46 :: n /\ no_sep 46 n = true /\
-        import_module m = Ok md /\ getattr_ md n = Ok c /\ is_type c = true /\ issubclass_ser c = Ok true.
+      exists d s m n o, data = JObj d /\ dict_get d JSON_TYPE_NAME = Some (JStr s) /\ s = m ++ 46 :: n /\ no_sep 46 n = true /\
+        owner_of pymodule pyclass (view_module pymodule import_module) (view_attr pymodule pyclass getattr_) is_type m = Some o /\
+        getattr_ o n = Ok c /\ is_type c = true /\ issubclass_ser c = Ok true.
 Proof. exact resolve_class_named. Qed.
+
+(* the hand model of _resolve_enclosing_class (source-pinned) computes the Spec's owner: the longest importable dotted
+   prefix, then the remaining names through classes -- and never asks the importer for "" or a relative name *)
+Theorem C19_enclosing_is_spec :
+  forall (pymodule pyclass : Type) import_module getattr_ is_type,
+    importer_documented pymodule import_module -> getattr_documented pymodule pyclass getattr_ ->
+    forall (c : Z) (r : str) (k : nat), c <> 46 ->
+      try_prefixes pymodule pyclass import_module getattr_ is_type (split_dots (c :: r)) k
+      = Ok (owner_from pymodule pyclass (view_module pymodule import_module) (view_attr pymodule pyclass getattr_) is_type
+              (split_dots (c :: r)) k).
+Proof. exact try_prefixes_owner_from. Qed.
 
 (* what the correspondence check evaluates is covered: on documented oracle tables the model is the Spec *)
 Theorem C19_model_is_spec :
@@ -90,15 +105,22 @@ Example C19_abstract_registered_divergence :
   K_abstract_registered Z Z Z w_import w_getattr (fun _ => true) (fun _ => Ok true) (fun _ => Some 9) (fun _ => false) w_data = true.
 Proof. exact abstract_registered_divergence. Qed.
 
-(* non-vacuity: in one documented world, a tag that resolves, and the former C19-a witnesses (5, ".x", a function, a
-   module attribute that is no class) each with its documented error *)
+(* non-vacuity: in one documented world (module "k" with class S = 2 and function f = 3; class S has the nested class
+   I = 4), a tag that resolves, a NESTED tag that resolves, and the former C19-a witnesses each with its documented error *)
 Example C19_nonvacuous :
   let imp := fun s : str => if str_eqb s [107] then Ok 1 else if str_eqb s [] then Exn ValueError else Exn ModuleNotFoundError in
-  let ga := fun (m : Z) (n : str) => if str_eqb n [83] then Ok 2 else if str_eqb n [102] then Ok 3 else Exn AttributeError in
-  let ty := fun o : Z => Z.eqb o 2 in
-  let sub := fun o : Z => if Z.eqb o 2 then Ok true else Exn TypeError in
+  let ga := fun (o : owner Z Z) (n : str) =>
+              match o with
+              | OMod _ => if str_eqb n [83] then Ok 2 else if str_eqb n [102] then Ok 3 else Exn AttributeError
+              | OCls k => if Z.eqb k 2 && str_eqb n [73] then Ok 4 else Exn AttributeError
+              end in
+  let ty := fun o : Z => Z.eqb o 2 || Z.eqb o 4 in
+  let sub := fun o : Z => if Z.eqb o 2 || Z.eqb o 4 then Ok true else Exn TypeError in
   let run := fun t => outcome_sx (resolve Z Z Z imp ga ty sub (fun _ => None) (fun _ => true) (JObj [(JSON_TYPE_NAME, t)])) in
   run (JStr [107; 46; 83]) = SL [SZ 10; SZ 2] /\
+  run (JStr [107; 46; 83; 46; 73]) = SL [SZ 10; SZ 4] /\          (* "k.S.I" *)
+  run (JStr [107; 46; 83; 46; 120]) = SL [SZ 20; SZ 4] /\         (* "k.S.x": class S has no x *)
+  run (JStr [107; 46; 102; 46; 73]) = SL [SZ 20; SZ 3] /\         (* "k.f.I": f is not a class *)
   run (JInt 5) = SL [SZ 20; SZ 2] /\
   run (JStr [46; 120]) = SL [SZ 20; SZ 2] /\
   run (JStr [107; 46; 102]) = SL [SZ 20; SZ 4] /\
@@ -111,4 +133,5 @@ Print Assumptions C19_only_documented.
 Print Assumptions C19_abstract_class_not_deserializable.
 Print Assumptions C19_identifies_problem.
 Print Assumptions C19_never_wrongly_typed.
+Print Assumptions C19_enclosing_is_spec.
 Print Assumptions C19_model_is_spec.
